@@ -913,4 +913,32 @@ def modelPermits : Nat := 3
 def modelDigestBytes : Nat := 2
 def modelSlots : Nat := 65536
 
+/-! ## Phase 6: keys as the code sees them (typed keys)
+
+The transition system indexes the inner cache by a key `k : Nat` and the lock table by `idx k` — it assumes that the lock slot is a
+FUNCTION of the entry. The code computes the slot from `str(key)` (`_index`), while the inner cacher identifies entries by the key's own
+equality (`==`/`hash` for MemoryCacher's dict; the file name for DiskCacher). `KeyRep` separates the two: `ident` = the entry (equality
+class of the key for the inner cacher), `text` = code of `str(key)`; `h` = the 16-bit hash of the text. -/
+structure KeyRep where
+  ident : Nat
+  text  : Nat
+  deriving DecidableEq, Repr
+
+/-- the slot `ConcurrentCacher._index` computes for a key -/
+def slotOf (h : Nat → Nat) (r : KeyRep) : Nat := h r.text
+
+/-- keys the inner cacher treats as one entry get one lock slot -/
+def slotsRespectEq (h : Nat → Nat) (reps : List KeyRep) : Bool :=
+  reps.all (fun a => reps.all (fun b => a.ident != b.ident || h a.text == h b.text))
+
+/-- the key→index map of the transition system induced by the keys in use (slot of the first representative of the entry) -/
+def idxOf (h : Nat → Nat) (reps : List KeyRep) (k : Nat) : Nat :=
+  match reps.find? (fun r => r.ident == k) with
+  | some r => h r.text
+  | none => 0
+
+/-- the expression by which MemoryCacher identifies an entry of its dict (every subscript and membership test): the key itself — so
+`KeyRep.ident` is the key's own equality class (`==`/`hash`) -/
+def modelMemoryKeyExpr : String := "key"
+
 end Coba.C19
